@@ -101,6 +101,7 @@ def handle (j : Json) : Except String Json := do
     match ← j.getObjValAs? String "cmd" with
     | "put" => World.runPutWorld j
     | c => World.runOther c j
+  | "restoreDir" => do pure (Json.mkObj [("r", jhex (restoreScopeDir (← hexOf j "cwd") (← hexOf j "path")))])
   | "normpath" => do pure (Json.mkObj [("r", jhex (normpath (← hexOf j "s")))])
   | "dirname" => do pure (Json.mkObj [("r", jhex (dirname (← hexOf j "s")))])
   | "basename" => do pure (Json.mkObj [("r", jhex (basename (← hexOf j "s")))])
